@@ -303,6 +303,13 @@ func (r *Run) ValidateTrace(fam string, col *Collector, o TLCOpts) {
 		}
 	}
 	res, err := RunTLC(r.SpecDir(), r.Out, o)
+	if err == nil && res != nil && res.ExitCode < 0 && !res.TimedOut && res.Violated == "" && len(res.Errors) == 0 {
+		// the JVM was killed from outside without having said anything: once more
+		for k := range rejected {
+			delete(rejected, k)
+		}
+		res, err = RunTLC(r.SpecDir(), r.Out, o)
+	}
 	if err != nil || res.TimedOut || res.ExitCode != 0 || res.Violated != "" {
 		msg := ""
 		if res != nil {
